@@ -3,6 +3,8 @@ package main
 import (
 	"fmt"
 	"go/ast"
+	"go/token"
+	"go/types"
 	"strings"
 
 	"golang.org/x/tools/go/cfg"
@@ -73,6 +75,7 @@ func runGates(c *Ctx, specs []GateSpec) {
 				continue
 			}
 		}
+		var ifCond ast.Expr
 		if sp.IfMentions != "" {
 			want := strings.Split(sp.IfMentions, ",")
 			var found []*ast.IfStmt
@@ -96,6 +99,7 @@ func runGates(c *Ctx, specs []GateSpec) {
 				continue
 			}
 			region = found[0].Body
+			ifCond = found[0].Cond
 			from = f.regionEntries(region)
 			if len(from) == 0 {
 				c.Lost(base+".if", fmt.Sprintf("%s: body of the if mentioning %s has no entry block", FuncKey(fd.Obj), sp.IfMentions))
@@ -250,6 +254,37 @@ func runGates(c *Ctx, specs []GateSpec) {
 			res := f.CheckGateIn(region, from, targets, g, sp.Assume)
 			key := base + "." + g.ID
 			pos := c.P.Pos(fd.Decl.Pos())
+			if !res.OK && ifCond != nil {
+				// the guard is a conjunct of the very condition the region stands under (`if bit && listed { … }`)
+				var conj []ast.Expr
+				var split func(e ast.Expr)
+				split = func(e ast.Expr) {
+					if be, ok := ast.Unparen(e).(*ast.BinaryExpr); ok && be.Op == token.LAND {
+						split(be.X)
+						split(be.Y)
+						return
+					}
+					conj = append(conj, e)
+				}
+				split(ifCond)
+				for _, cj := range conj {
+					if len(conj) < 2 {
+						break
+					}
+					m := f.Mentions(cj, nil)
+					for _, alt := range g.Alts {
+						all := len(alt) > 0
+						for _, a := range alt {
+							if !m[a] {
+								all = false
+							}
+						}
+						if all && !strings.HasPrefix(types.ExprString(ast.Unparen(cj)), "!") {
+							res = GateResult{OK: true, Msg: fmt.Sprintf("guard %q is a conjunct of the condition the region stands under", g.ID)}
+						}
+					}
+				}
+			}
 			if !res.OK {
 				if ok, how := delegatedGate(c.P, f, fd.Obj, region, from, targets, g, sp.Assume, 0); ok {
 					res = GateResult{OK: true, Msg: fmt.Sprintf("guard %q enforced %s", g.ID, how)}
